@@ -546,23 +546,46 @@ type pathCond struct {
 // pathConds: branch conditions that hold on every path to b (from its dominator chain).
 func pathConds(b *ssa.BasicBlock) []pathCond {
 	var out []pathCond
-	for d := b; d != nil && d.Idom() != nil; d = d.Idom() {
-		p := d.Idom()
+	for p := b.Idom(); p != nil; p = p.Idom() {
 		iff, ok := p.Instrs[len(p.Instrs)-1].(*ssa.If)
-		if !ok {
+		if !ok || p.Succs[0] == p.Succs[1] {
 			continue
 		}
-		t, f := p.Succs[0], p.Succs[1]
-		domT := t == d || t.Dominates(d)
-		domF := f == d || f.Dominates(d)
-		// only when exactly one side leads here and the other cannot reach it without passing the If again
-		if domT && !domF && len(t.Preds) == 1 {
+		// the outcome is known at b when b can only be reached from p (without passing p again) through one of the two edges
+		viaT := reachesAvoiding(p.Succs[0], b, p)
+		viaF := reachesAvoiding(p.Succs[1], b, p)
+		if viaT && !viaF {
 			out = append(out, pathCond{iff.Cond, true})
-		} else if domF && !domT && len(f.Preds) == 1 {
+		} else if viaF && !viaT {
 			out = append(out, pathCond{iff.Cond, false})
 		}
 	}
 	return out
+}
+
+// reachesAvoiding: to is reachable from from without entering the block avoid.
+func reachesAvoiding(from, to, avoid *ssa.BasicBlock) bool {
+	seen := map[*ssa.BasicBlock]bool{avoid: true}
+	var walk func(x *ssa.BasicBlock) bool
+	walk = func(x *ssa.BasicBlock) bool {
+		if x == to {
+			return true
+		}
+		if seen[x] {
+			return false
+		}
+		seen[x] = true
+		for _, s := range x.Succs {
+			if walk(s) {
+				return true
+			}
+		}
+		return false
+	}
+	if from == avoid {
+		return false
+	}
+	return walk(from)
 }
 
 // ---------------------------------------------------------------------------
